@@ -315,8 +315,14 @@ SECTIONS = []
 
 
 class Section:
-    def __init__(self, name, ids, static, render, sem=None, kind="value", needs=(), probe_note="", exact=None, decided_by=()):
+    def __init__(self, name, ids, static, render, sem=None, kind="value", needs=(), probe_note="", exact=None, decided_by=(),
+                 static_may_see_more=False):
         self.name = name
+        # the harness enumerates enum variants, predefined commands and tuple arities BY HAND: something ADDED to the
+        # source is seen by the static reading only.  For such sections the two readings agree when everything the
+        # probe reports is in the static reading with the same meaning (the additions are then judged by the lemmas
+        # and the oracle as before, not by the cross-check).
+        self.static_may_see_more = static_may_see_more
         self.decided_by = tuple(decided_by)   # tripwires: the properties whose correspondence + oracle decide the behaviour on every run
         self.ids = ids
         self.static = static
@@ -428,7 +434,7 @@ def sem_variants(v, got):
 Section("tag_enum", ["tagv", "all_tagv", "tagv_index", "tagv_ident"], st_tag_enum,
         render_enum("tagv", "T_", "all_tagv", [("index", "tagv_index"), ("ident", "tagv_ident")]), sem_variants,
         exact=lambda v, got: list(v["variants"]),
-        probe_note="variants the harness enumerates (tag_list); a variant added to the enum is seen by the static reading only")
+        static_may_see_more=True, probe_note="variants the harness enumerates (tag_list); a variant added to the enum is seen by the static reading only")
 
 
 def st_tag_names(src, got):
@@ -468,7 +474,7 @@ def sem_names(v, got):
 
 
 Section("tag_names", ["tag_name"], st_tag_names, render_names("tag_name", "tagv", "T_", "tag_enum"), sem_names,
-        needs=("tag_enum",), probe_note="what Argument::render writes for every variant (tag_list)")
+        needs=("tag_enum",), static_may_see_more=True, probe_note="what Argument::render writes for every variant (tag_list)")
 
 
 def st_tag_charset(src, got):
@@ -560,7 +566,7 @@ def st_sub_enum(src, got):
 Section("sub_enum", ["subv", "all_subv", "subv_ident", "subv_index"], st_sub_enum,
         render_enum("subv", "S_", "all_subv", [("ident", "subv_ident"), ("index", "subv_index")]), sem_variants,
         exact=lambda v, got: list(v["variants"]),
-        probe_note="variants the harness enumerates (sub_list)")
+        static_may_see_more=True, probe_note="variants the harness enumerates (sub_list)")
 
 
 def st_sub_names(src, got):
@@ -577,7 +583,7 @@ def st_sub_names(src, got):
 
 
 Section("sub_names", ["sub_name"], st_sub_names, render_names("sub_name", "subv", "S_", "sub_enum"), sem_names,
-        needs=("sub_enum",), probe_note="Subsystem::as_str of every variant (sub_list)")
+        needs=("sub_enum",), static_may_see_more=True, probe_note="Subsystem::as_str of every variant (sub_list)")
 
 
 def _sub_from_frame(src):
@@ -872,7 +878,7 @@ def render_operator_enum(v, got):
 
 
 Section("operator_enum", ["operator", "all_operators", "operator_ident", "operator_index"], st_operator_enum, render_operator_enum,
-        sem_variants, probe_note="variants the harness enumerates", exact=lambda v, got: list(v["variants"]))
+        sem_variants, static_may_see_more=True, probe_note="variants the harness enumerates", exact=lambda v, got: list(v["variants"]))
 
 
 def st_operator_str(src, got):
@@ -886,7 +892,7 @@ def st_operator_str(src, got):
 
 
 Section("operator_str", ["operator_str"], st_operator_str, render_names("operator_str", "operator", "Op_", "operator_enum"), sem_names,
-        needs=("operator_enum",), probe_note="the rendering of Filter::new(Album, op, \"v\") for every operator")
+        needs=("operator_enum",), static_may_see_more=True, probe_note="the rendering of Filter::new(Album, op, \"v\") for every operator")
 
 
 def st_filter_escape(src, got):
@@ -1086,7 +1092,7 @@ def render_predefined_words(v, got):
 
 
 Section("predefined_command_words", ["predefined_command_words"], st_predefined_words, render_predefined_words, sem_set,
-        probe_note="the first word of the rendering of every constructor path of every predefined command the harness knows")
+        static_may_see_more=True, probe_note="the first word of the rendering of every constructor path of every predefined command the harness knows")
 
 
 def st_volume_max(src, got):
@@ -1194,7 +1200,7 @@ def render_tuple_impls(v, got):
 
 Section("tuple_impls", ["tuple_impls"], st_tuple_impls, render_tuple_impls, lambda v, got: sorted(v["lists"]),
         exact=lambda v, got: list(v["lists"]),
-        probe_note="typed tuples of arity 1..8 over commands with mutually undecodable replies: which command decodes which frame into which position")
+        static_may_see_more=True, probe_note="typed tuples of arity 1..8 over commands with mutually undecodable replies: which command decodes which frame into which position")
 
 
 def st_tuple_macro(src, got):
@@ -1229,6 +1235,19 @@ def section_ids():
 
 def canon(x):
     return json.dumps(x, sort_keys=True)
+
+
+def readings_agree(s, st, pr):
+    if canon(st) == canon(pr):
+        return True
+    if not s.static_may_see_more:
+        return False
+    if isinstance(st, dict) and isinstance(pr, dict):
+        return all(k in st and canon(st[k]) == canon(v) for k, v in pr.items())
+    if isinstance(st, list) and isinstance(pr, list):
+        have = {canon(x) for x in st}
+        return all(canon(x) in have for x in pr)
+    return False
 
 
 def gen(repo, probe=None, fallback=None):
@@ -1282,7 +1301,7 @@ def gen(repo, probe=None, fallback=None):
             try:
                 if st_val is not None and pr_val is not None:
                     got_tmp = dict(got)
-                    if canon(s.sem(st_val, got_tmp)) == canon(s.sem(pr_val, got_tmp)):
+                    if readings_agree(s, s.sem(st_val, got_tmp), s.sem(pr_val, got_tmp)):
                         use, how[s.name] = st_val, "static+probe-agree"
                     else:
                         use, how[s.name] = st_val, "disagree"
